@@ -514,6 +514,11 @@ class CacheEngine(Engine):
                 done = rng.choice([100, 100, 1000, 1000, 7])
                 return {"w": "ProgressBar", "cur": rng.randint(0, done), "done": done, "satt": rng.choice([None, "ps"] if done > 100 else [None, None, "ps"])}
             if r < 0.5:
+                if rng.random() < 0.25:
+                    # a "menu" of unselectable rows that are highlighted through their focus map: what is drawn depends on
+                    # the container's focus position although nothing in it takes input
+                    budget[0] -= 2
+                    return {"w": rng.choice(["Pile", "Pile", "Columns"]), "modes": ["weight"], "div": 1, "kids": [{"w": "AttrMap", "attr": "a", "fattr": "f", "kids": [{"w": "Text", "text": rng.choice(TEXTS[1:5]), "wrap": "space", "align": "left"}]} for _ in range(rng.randint(2, 4))]}
                 return {"w": "Pile", "kids": [self.gen_tree(rng, "flow", depth - 1, budget) for _ in range(rng.randint(1, 3))]}
             if r < 0.62:
                 cspec = {"w": "Columns", "kids": [self.gen_tree(rng, "flow", depth - 1, budget) for _ in range(rng.randint(1, 3))], "modes": [rng.choice(["weight", "given", "weight2", "pack", "pack"]) for _ in range(3)], "div": rng.randint(0, 1)}
